@@ -19,6 +19,7 @@
 (* against its own `live` (premise) before comparing.                      *)
 (*                                                                         *)
 (* step: [op |-> "register" | "unregister", m]                             *)
+(*     | [op |-> "conform", m, to, out]      (X5, beyond the properties)   *)
 (*     | [op |-> "call", call, obs, fresh, fresh_methods, counts]          *)
 (***************************************************************************)
 EXTENDS Naturals, Sequences, FiniteSets, TLC, Json, IOUtils
@@ -32,6 +33,8 @@ Case  == Cases[i]
 Props == {Case.props[j] : j \in DOMAIN Case.props}
 
 NoReplace == "noreplace" \in DOMAIN Case /\ Case.noreplace = TRUE
+\* X5 (beyond the listed properties): histories with hot reloads; every clause of such a case is reported under X5
+HotReload == "x5" \in DOMAIN Case /\ Case.x5 = TRUE
 Remove(s, x) == SelectSeq(s, LAMBDA y : y # x)
 InSeq(s, x) == \E j \in DOMAIN s : s[j] = x
 
@@ -43,9 +46,9 @@ CallClause(st) ==
              THEN IF st.fresh_methods # live THEN "premise.method_set"
                   \* the error object of a failing call is this call's own: not the one an earlier call was given
                   \* (whose traceback and notes it would carry along)
-                  ELSE IF "reused" \in DOMAIN st.obs THEN (IF "C05" \in Props THEN "C05:same_as_rebuilt" ELSE "C04:same_as_fresh") \o ".error_object_of_an_earlier_call"
+                  ELSE IF "reused" \in DOMAIN st.obs THEN (IF HotReload THEN "X5:same_as_rebuilt_after_hot_reload" ELSE IF "C05" \in Props THEN "C05:same_as_rebuilt" ELSE "C04:same_as_fresh") \o ".error_object_of_an_earlier_call"
                   ELSE IF ObsKey(st.obs) # ObsKey(st.fresh)
-                       THEN (IF "C05" \in Props THEN "C05:same_as_rebuilt" ELSE "C04:same_as_fresh")
+                       THEN (IF HotReload THEN "X5:same_as_rebuilt_after_hot_reload" ELSE IF "C05" \in Props THEN "C05:same_as_rebuilt" ELSE "C04:same_as_fresh")
                   ELSE ""
              ELSE ""
       Combos(x) == IF "combos" \in DOMAIN x THEN {x.combos[j] : j \in DOMAIN x.combos} ELSE {}
@@ -87,6 +90,15 @@ Consume ==
             /\ live' = Remove(live, st.m)
             /\ succ' = {} /\ succc' = {}
             /\ bad' = bad
+       [] st.op = "conform" ->
+            \* X5: a hot reload (Conformer.__conform__) is one implementation step made of two specification steps -
+            \* the old version is unregistered, the new one (if any: to = "" deletes the method) registered in its
+            \* place, with the priority the old version had (the harness builds the brand-new function that way)
+            /\ live' = (IF st.to = "" THEN Remove(live, st.m) ELSE Append(Remove(live, st.m), st.to))
+            /\ succ' = {} /\ succc' = {}
+            /\ bad' = IF ~InSeq(live, st.m) \/ (st.to # "" /\ InSeq(live, st.to)) THEN (IF bad = "" THEN "premise.conform@" \o ToString(l) ELSE bad)
+                      ELSE IF st.out # "ok" THEN bad \o (IF bad = "" THEN "" ELSE ",") \o "X5:hot_reload_completes@" \o ToString(l) \o "#0"
+                      ELSE bad
        [] OTHER ->
             /\ live' = live
             /\ succ' = IF st.obs.kind = "run" THEN succ \cup {st.call} ELSE succ
